@@ -93,7 +93,7 @@ def main(argv=None):
         # listed but not observed in this tier's bounds: say so, it suppresses nothing
         print("note: listed finding not observed in this run (outside this tier's cells?): %s" % k)
 
-    rdir = os.path.join(HERE, "replays", prop)
+    rdir = os.path.join(os.environ.get("VERIF_OUT_DIR", HERE), "replays", prop)
     lines = []
     for v in new:
         os.makedirs(rdir, exist_ok=True)
@@ -115,8 +115,9 @@ def main(argv=None):
               engine_errors=len(errors))
     ev.update(r.get("extra", {}))
     if not a.only:
-        os.makedirs(os.path.join(HERE, "evidence"), exist_ok=True)
-        with open(os.path.join(HERE, "evidence", prop + ".json"), "w") as f:
+        evdir = os.path.join(os.environ.get("VERIF_OUT_DIR", HERE), "evidence")
+        os.makedirs(evdir, exist_ok=True)
+        with open(os.path.join(evdir, prop + ".json"), "w") as f:
             json.dump(ev, f, indent=1, sort_keys=True, default=str)
     print("summary property=%s tier=%s wall=%.1fs %s" % (prop, tier, wall, r.get("summary", "")))
     for ln in lines:
